@@ -983,6 +983,53 @@ def check_release_refill(chk, unit, rule="L4"):
             if a is None or a.get("k") != "member":
                 continue
             b = X.strip(a["ch"][0])
+            if b is not None and b.get("k") == "ref" and b.get("rk") == "local" and a.get("arrow"):
+                # released through a slot pointer every definition of which points into a global table (entry = context;
+                # entry = context + id): on every path from the release, entry->f is stored (non-NULL) before the function
+                # returns or the pointer moves
+                def into_table(e):
+                    e = X.strip(e)
+                    if e is None:
+                        return False
+                    if glob_ref(e) is not None and e.get("tp"):
+                        return True
+                    if e.get("k") == "un" and e.get("op") == "&":
+                        t = X.strip(e["ch"][0])
+                        return t is not None and t.get("k") == "index" and glob_ref(t["ch"][0]) is not None
+                    if e.get("k") == "bin" and e.get("op") == "+":
+                        return glob_ref(e["ch"][0]) is not None or glob_ref(e["ch"][1]) is not None
+                    return False
+                defs_ = _local_defs(f, b["d"])
+                if not defs_ or not all(into_table(e_) for e_ in defs_):
+                    continue
+                n += 1
+                cfg = cfg or nullness.prepared_cfg(f, NORETURN)
+                fld_, pd_ = a.get("n"), b["d"]
+                bad_ = []
+
+                def tr_(st, x, blk, c=c, fld_=fld_, pd_=pd_):
+                    if x is c or x.get("i") == c.get("i"):
+                        return st | {("rel",)}
+                    if x.get("k") == "assign" and x.get("op") == "=":
+                        l_ = X.strip(x["ch"][0])
+                        if l_ is not None and l_.get("k") == "member" and l_.get("n") == fld_ and (X.strip(l_["ch"][0]) or {}).get("d") == pd_ \
+                                and not X.is_null_const(x["ch"][1]):
+                            return frozenset(t for t in st if t != ("rel",))
+                    return st
+
+                def vis_(st, x, blk, pd_=pd_, bad_=bad_):
+                    if ("rel",) not in st:
+                        return
+                    if x.get("k") == "return":
+                        bad_.append(x)
+                    if x.get("k") == "assign" and x.get("op") == "=" and (X.strip(x["ch"][0]) or {}).get("d") == pd_ and (X.strip(x["ch"][0]) or {}).get("k") == "ref":
+                        bad_.append(x)
+                flow.forward(cfg, frozenset(), tr_, join=lambda p_, q_: p_ | q_, visit=vis_)
+                chk.ob(rule, f.name, "refill:" + canon(f, a)[:40], not bad_, loc=f.loc(bad_[0]) if bad_ else f.loc(c),
+                       detail="%s releases %s and can return (or move the slot pointer on) without storing the field again: every reader of "
+                              "the table uses the field unconditionally" % (f.name, X.render(a)[:40]),
+                       proof="a non-NULL store to the same field through the same slot pointer follows on every path")
+                continue
             if b.get("k") != "index" or glob_ref(b["ch"][0]) is None:
                 continue
             n += 1
